@@ -1,9 +1,2493 @@
-//! Reference WHATWG HTML tokenizer (to be written).
+//! Reference WHATWG HTML tokenizer (HTML Standard §13.2.5 "Tokenization", with the §13.2.3.5
+//! input-stream preprocessing and the character-reference states §13.2.5.72–80).
+//!
+//! Written from the specification, independently of the crate under test. One method per
+//! spec state, named after the state; the spec's "temporary buffer", "return state" and
+//! "character reference code" are explicit fields. The input is normalised up front
+//! (CR LF -> LF, lone CR -> LF) into a `Vec<char>` and consumed one code point at a time.
+//!
+//! Parse errors are not reported (they are mentioned in comments only).
 
+use super::entities::ENTITIES;
 use super::{RefSink, RefTokOpts};
+use crate::gen::StartState;
+use crate::tokrec::{Answer, RTok};
+use std::collections::BTreeSet;
+
+/// Set of (spec state name in kebab-case, input class) pairs exercised by a run.
+pub type Coverage = BTreeSet<(&'static str, &'static str)>;
 
 /// Tokenize `input` completely (including the final EOF token), delivering tokens to `sink`.
 /// Returns the set of (state name, input class) transitions exercised.
-pub fn run_reftok(_input: &str, _opts: &RefTokOpts, _sink: &mut dyn RefSink) -> std::collections::BTreeSet<(&'static str, &'static str)> {
-    unimplemented!()
+pub fn run_reftok(input: &str, opts: &RefTokOpts, sink: &mut dyn RefSink) -> Coverage {
+    let mut t = Tokenizer::new(input, opts, sink);
+    t.run();
+    t.cov
+}
+
+// ---------------------------------------------------------------------------------------------
+// states
+
+#[derive(Clone, Copy, Debug, PartialEq, Eq)]
+enum State {
+    Data,
+    Rcdata,
+    Rawtext,
+    ScriptData,
+    Plaintext,
+    TagOpen,
+    EndTagOpen,
+    TagName,
+    RcdataLessThanSign,
+    RcdataEndTagOpen,
+    RcdataEndTagName,
+    RawtextLessThanSign,
+    RawtextEndTagOpen,
+    RawtextEndTagName,
+    ScriptDataLessThanSign,
+    ScriptDataEndTagOpen,
+    ScriptDataEndTagName,
+    ScriptDataEscapeStart,
+    ScriptDataEscapeStartDash,
+    ScriptDataEscaped,
+    ScriptDataEscapedDash,
+    ScriptDataEscapedDashDash,
+    ScriptDataEscapedLessThanSign,
+    ScriptDataEscapedEndTagOpen,
+    ScriptDataEscapedEndTagName,
+    ScriptDataDoubleEscapeStart,
+    ScriptDataDoubleEscaped,
+    ScriptDataDoubleEscapedDash,
+    ScriptDataDoubleEscapedDashDash,
+    ScriptDataDoubleEscapedLessThanSign,
+    ScriptDataDoubleEscapeEnd,
+    BeforeAttributeName,
+    AttributeName,
+    AfterAttributeName,
+    BeforeAttributeValue,
+    AttributeValueDoubleQuoted,
+    AttributeValueSingleQuoted,
+    AttributeValueUnquoted,
+    AfterAttributeValueQuoted,
+    SelfClosingStartTag,
+    BogusComment,
+    MarkupDeclarationOpen,
+    CommentStart,
+    CommentStartDash,
+    Comment,
+    CommentLessThanSign,
+    CommentLessThanSignBang,
+    CommentLessThanSignBangDash,
+    CommentLessThanSignBangDashDash,
+    CommentEndDash,
+    CommentEnd,
+    CommentEndBang,
+    Doctype,
+    BeforeDoctypeName,
+    DoctypeName,
+    AfterDoctypeName,
+    AfterDoctypePublicKeyword,
+    BeforeDoctypePublicIdentifier,
+    DoctypePublicIdentifierDoubleQuoted,
+    DoctypePublicIdentifierSingleQuoted,
+    AfterDoctypePublicIdentifier,
+    BetweenDoctypePublicAndSystemIdentifiers,
+    AfterDoctypeSystemKeyword,
+    BeforeDoctypeSystemIdentifier,
+    DoctypeSystemIdentifierDoubleQuoted,
+    DoctypeSystemIdentifierSingleQuoted,
+    AfterDoctypeSystemIdentifier,
+    BogusDoctype,
+    CdataSection,
+    CdataSectionBracket,
+    CdataSectionEnd,
+    CharacterReference,
+    NamedCharacterReference,
+    AmbiguousAmpersand,
+    NumericCharacterReference,
+    HexadecimalCharacterReferenceStart,
+    DecimalCharacterReferenceStart,
+    HexadecimalCharacterReference,
+    DecimalCharacterReference,
+    NumericCharacterReferenceEnd,
+}
+
+impl State {
+    /// The spec's state name in kebab-case.
+    fn name(self) -> &'static str {
+        use State::*;
+        match self {
+            Data => "data",
+            Rcdata => "rcdata",
+            Rawtext => "rawtext",
+            ScriptData => "script-data",
+            Plaintext => "plaintext",
+            TagOpen => "tag-open",
+            EndTagOpen => "end-tag-open",
+            TagName => "tag-name",
+            RcdataLessThanSign => "rcdata-less-than-sign",
+            RcdataEndTagOpen => "rcdata-end-tag-open",
+            RcdataEndTagName => "rcdata-end-tag-name",
+            RawtextLessThanSign => "rawtext-less-than-sign",
+            RawtextEndTagOpen => "rawtext-end-tag-open",
+            RawtextEndTagName => "rawtext-end-tag-name",
+            ScriptDataLessThanSign => "script-data-less-than-sign",
+            ScriptDataEndTagOpen => "script-data-end-tag-open",
+            ScriptDataEndTagName => "script-data-end-tag-name",
+            ScriptDataEscapeStart => "script-data-escape-start",
+            ScriptDataEscapeStartDash => "script-data-escape-start-dash",
+            ScriptDataEscaped => "script-data-escaped",
+            ScriptDataEscapedDash => "script-data-escaped-dash",
+            ScriptDataEscapedDashDash => "script-data-escaped-dash-dash",
+            ScriptDataEscapedLessThanSign => "script-data-escaped-less-than-sign",
+            ScriptDataEscapedEndTagOpen => "script-data-escaped-end-tag-open",
+            ScriptDataEscapedEndTagName => "script-data-escaped-end-tag-name",
+            ScriptDataDoubleEscapeStart => "script-data-double-escape-start",
+            ScriptDataDoubleEscaped => "script-data-double-escaped",
+            ScriptDataDoubleEscapedDash => "script-data-double-escaped-dash",
+            ScriptDataDoubleEscapedDashDash => "script-data-double-escaped-dash-dash",
+            ScriptDataDoubleEscapedLessThanSign => "script-data-double-escaped-less-than-sign",
+            ScriptDataDoubleEscapeEnd => "script-data-double-escape-end",
+            BeforeAttributeName => "before-attribute-name",
+            AttributeName => "attribute-name",
+            AfterAttributeName => "after-attribute-name",
+            BeforeAttributeValue => "before-attribute-value",
+            AttributeValueDoubleQuoted => "attribute-value-double-quoted",
+            AttributeValueSingleQuoted => "attribute-value-single-quoted",
+            AttributeValueUnquoted => "attribute-value-unquoted",
+            AfterAttributeValueQuoted => "after-attribute-value-quoted",
+            SelfClosingStartTag => "self-closing-start-tag",
+            BogusComment => "bogus-comment",
+            MarkupDeclarationOpen => "markup-declaration-open",
+            CommentStart => "comment-start",
+            CommentStartDash => "comment-start-dash",
+            Comment => "comment",
+            CommentLessThanSign => "comment-less-than-sign",
+            CommentLessThanSignBang => "comment-less-than-sign-bang",
+            CommentLessThanSignBangDash => "comment-less-than-sign-bang-dash",
+            CommentLessThanSignBangDashDash => "comment-less-than-sign-bang-dash-dash",
+            CommentEndDash => "comment-end-dash",
+            CommentEnd => "comment-end",
+            CommentEndBang => "comment-end-bang",
+            Doctype => "doctype",
+            BeforeDoctypeName => "before-doctype-name",
+            DoctypeName => "doctype-name",
+            AfterDoctypeName => "after-doctype-name",
+            AfterDoctypePublicKeyword => "after-doctype-public-keyword",
+            BeforeDoctypePublicIdentifier => "before-doctype-public-identifier",
+            DoctypePublicIdentifierDoubleQuoted => "doctype-public-identifier-double-quoted",
+            DoctypePublicIdentifierSingleQuoted => "doctype-public-identifier-single-quoted",
+            AfterDoctypePublicIdentifier => "after-doctype-public-identifier",
+            BetweenDoctypePublicAndSystemIdentifiers => "between-doctype-public-and-system-identifiers",
+            AfterDoctypeSystemKeyword => "after-doctype-system-keyword",
+            BeforeDoctypeSystemIdentifier => "before-doctype-system-identifier",
+            DoctypeSystemIdentifierDoubleQuoted => "doctype-system-identifier-double-quoted",
+            DoctypeSystemIdentifierSingleQuoted => "doctype-system-identifier-single-quoted",
+            AfterDoctypeSystemIdentifier => "after-doctype-system-identifier",
+            BogusDoctype => "bogus-doctype",
+            CdataSection => "cdata-section",
+            CdataSectionBracket => "cdata-section-bracket",
+            CdataSectionEnd => "cdata-section-end",
+            CharacterReference => "character-reference",
+            NamedCharacterReference => "named-character-reference",
+            AmbiguousAmpersand => "ambiguous-ampersand",
+            NumericCharacterReference => "numeric-character-reference",
+            HexadecimalCharacterReferenceStart => "hexadecimal-character-reference-start",
+            DecimalCharacterReferenceStart => "decimal-character-reference-start",
+            HexadecimalCharacterReference => "hexadecimal-character-reference",
+            DecimalCharacterReference => "decimal-character-reference",
+            NumericCharacterReferenceEnd => "numeric-character-reference-end",
+        }
+    }
+}
+
+// ---------------------------------------------------------------------------------------------
+// character classes
+
+const REPLACEMENT: char = '\u{FFFD}';
+
+/// Generic input-class label used for the coverage set.
+fn class_of(c: Option<char>) -> &'static str {
+    match c {
+        None => "eof",
+        Some(c) => match c {
+            '\t' => "tab",
+            '\n' => "lf",
+            '\x0C' => "ff",
+            ' ' => "space",
+            '!' => "!",
+            '"' => "\"",
+            '#' => "#",
+            '&' => "&",
+            '\'' => "'",
+            '-' => "-",
+            '/' => "/",
+            '0'..='9' => "digit",
+            ';' => ";",
+            '<' => "<",
+            '=' => "=",
+            '>' => ">",
+            '?' => "?",
+            'A'..='Z' => "upper",
+            'a'..='z' => "lower",
+            '[' => "[",
+            ']' => "]",
+            '`' => "`",
+            '\0' => "nul",
+            _ => "other",
+        },
+    }
+}
+
+/// Input-class label for the numeric character reference states (separates x/X and the hex
+/// digit letters from the other letters).
+fn class_of_numeric(c: Option<char>) -> &'static str {
+    match c {
+        Some('x') => "x",
+        Some('X') => "X",
+        Some('A'..='F') => "upper-hexdigit",
+        Some('a'..='f') => "lower-hexdigit",
+        _ => class_of(c),
+    }
+}
+
+/// The spec's tokenizer "whitespace": TAB, LF, FF, SPACE (CR never reaches the tokenizer).
+fn is_ws(c: char) -> bool {
+    matches!(c, '\t' | '\n' | '\x0C' | ' ')
+}
+
+/// Lower-case an ASCII upper alpha ("add 0x0020 to the character's code point").
+fn lower(c: char) -> char {
+    c.to_ascii_lowercase()
+}
+
+// ---------------------------------------------------------------------------------------------
+// tokens under construction
+
+#[derive(Clone, Debug, Default)]
+struct TagToken {
+    is_end: bool,
+    name: String,
+    /// attributes that are (still) on the token, in source order
+    attrs: Vec<(String, String)>,
+    self_closing: bool,
+    /// at least one duplicate attribute was removed from the token
+    dup: bool,
+}
+
+/// The tokenizer's "current attribute". `removed` is set when it was found to be a duplicate
+/// on leaving the attribute name state: it stays the current attribute (its value keeps being
+/// collected) but never reaches the token.
+#[derive(Clone, Debug, Default)]
+struct CurrentAttribute {
+    name: String,
+    value: String,
+    removed: bool,
+}
+
+#[derive(Clone, Debug, Default)]
+struct DoctypeToken {
+    name: Option<String>,
+    public_id: Option<String>,
+    system_id: Option<String>,
+    force_quirks: bool,
+}
+
+// ---------------------------------------------------------------------------------------------
+// the tokenizer
+
+struct Tokenizer<'s> {
+    sink: &'s mut dyn RefSink,
+    /// the preprocessed input stream
+    input: Vec<char>,
+    /// index of the next input character
+    pos: usize,
+    /// number of input characters that have been consumed at least once (a reconsumed
+    /// character stays consumed)
+    high_water: usize,
+    /// 1 + number of LF among `input[..high_water]`
+    line: u64,
+    /// the current input character (`None` = EOF)
+    current: Option<char>,
+    state: State,
+    return_state: State,
+    temporary_buffer: String,
+    character_reference_code: u32,
+    tag: TagToken,
+    attribute: Option<CurrentAttribute>,
+    comment: String,
+    doctype: DoctypeToken,
+    last_start_tag_name: Option<String>,
+    done: bool,
+    cov: Coverage,
+}
+
+/// §13.2.3.5 Preprocessing the input stream: CR LF -> LF, lone CR -> LF. (`discard_bom` is
+/// a decoder-level convention of the crate under test, not part of the tokenizer.)
+fn preprocess(input: &str, discard_bom: bool) -> Vec<char> {
+    let mut out = Vec::with_capacity(input.len());
+    let mut chars = input.chars().peekable();
+    if discard_bom && chars.peek() == Some(&'\u{FEFF}') {
+        chars.next();
+    }
+    while let Some(c) = chars.next() {
+        if c == '\r' {
+            if chars.peek() == Some(&'\n') {
+                chars.next();
+            }
+            out.push('\n');
+        } else {
+            out.push(c);
+        }
+    }
+    out
+}
+
+impl<'s> Tokenizer<'s> {
+    fn new(input: &str, opts: &RefTokOpts, sink: &'s mut dyn RefSink) -> Tokenizer<'s> {
+        let state = match opts.start {
+            StartState::Data => State::Data,
+            StartState::Rcdata => State::Rcdata,
+            StartState::Rawtext => State::Rawtext,
+            StartState::ScriptData => State::ScriptData,
+            StartState::ScriptDataEscaped => State::ScriptDataEscaped,
+            StartState::ScriptDataDoubleEscaped => State::ScriptDataDoubleEscaped,
+            StartState::Plaintext => State::Plaintext,
+        };
+        Tokenizer {
+            sink,
+            input: preprocess(input, opts.discard_bom),
+            pos: 0,
+            high_water: 0,
+            line: 1,
+            current: None,
+            state,
+            return_state: State::Data,
+            temporary_buffer: String::new(),
+            character_reference_code: 0,
+            tag: TagToken::default(),
+            attribute: None,
+            comment: String::new(),
+            doctype: DoctypeToken::default(),
+            last_start_tag_name: opts.last_start_tag.clone(),
+            done: false,
+            cov: Coverage::new(),
+        }
+    }
+
+    fn run(&mut self) {
+        use State::*;
+        while !self.done {
+            match self.state {
+                Data => self.data_state(),
+                Rcdata => self.rcdata_state(),
+                Rawtext => self.rawtext_state(),
+                ScriptData => self.script_data_state(),
+                Plaintext => self.plaintext_state(),
+                TagOpen => self.tag_open_state(),
+                EndTagOpen => self.end_tag_open_state(),
+                TagName => self.tag_name_state(),
+                RcdataLessThanSign => self.rcdata_less_than_sign_state(),
+                RcdataEndTagOpen => self.rcdata_end_tag_open_state(),
+                RcdataEndTagName => self.rcdata_end_tag_name_state(),
+                RawtextLessThanSign => self.rawtext_less_than_sign_state(),
+                RawtextEndTagOpen => self.rawtext_end_tag_open_state(),
+                RawtextEndTagName => self.rawtext_end_tag_name_state(),
+                ScriptDataLessThanSign => self.script_data_less_than_sign_state(),
+                ScriptDataEndTagOpen => self.script_data_end_tag_open_state(),
+                ScriptDataEndTagName => self.script_data_end_tag_name_state(),
+                ScriptDataEscapeStart => self.script_data_escape_start_state(),
+                ScriptDataEscapeStartDash => self.script_data_escape_start_dash_state(),
+                ScriptDataEscaped => self.script_data_escaped_state(),
+                ScriptDataEscapedDash => self.script_data_escaped_dash_state(),
+                ScriptDataEscapedDashDash => self.script_data_escaped_dash_dash_state(),
+                ScriptDataEscapedLessThanSign => self.script_data_escaped_less_than_sign_state(),
+                ScriptDataEscapedEndTagOpen => self.script_data_escaped_end_tag_open_state(),
+                ScriptDataEscapedEndTagName => self.script_data_escaped_end_tag_name_state(),
+                ScriptDataDoubleEscapeStart => self.script_data_double_escape_start_state(),
+                ScriptDataDoubleEscaped => self.script_data_double_escaped_state(),
+                ScriptDataDoubleEscapedDash => self.script_data_double_escaped_dash_state(),
+                ScriptDataDoubleEscapedDashDash => self.script_data_double_escaped_dash_dash_state(),
+                ScriptDataDoubleEscapedLessThanSign => self.script_data_double_escaped_less_than_sign_state(),
+                ScriptDataDoubleEscapeEnd => self.script_data_double_escape_end_state(),
+                BeforeAttributeName => self.before_attribute_name_state(),
+                AttributeName => self.attribute_name_state(),
+                AfterAttributeName => self.after_attribute_name_state(),
+                BeforeAttributeValue => self.before_attribute_value_state(),
+                AttributeValueDoubleQuoted => self.attribute_value_double_quoted_state(),
+                AttributeValueSingleQuoted => self.attribute_value_single_quoted_state(),
+                AttributeValueUnquoted => self.attribute_value_unquoted_state(),
+                AfterAttributeValueQuoted => self.after_attribute_value_quoted_state(),
+                SelfClosingStartTag => self.self_closing_start_tag_state(),
+                BogusComment => self.bogus_comment_state(),
+                MarkupDeclarationOpen => self.markup_declaration_open_state(),
+                CommentStart => self.comment_start_state(),
+                CommentStartDash => self.comment_start_dash_state(),
+                Comment => self.comment_state(),
+                CommentLessThanSign => self.comment_less_than_sign_state(),
+                CommentLessThanSignBang => self.comment_less_than_sign_bang_state(),
+                CommentLessThanSignBangDash => self.comment_less_than_sign_bang_dash_state(),
+                CommentLessThanSignBangDashDash => self.comment_less_than_sign_bang_dash_dash_state(),
+                CommentEndDash => self.comment_end_dash_state(),
+                CommentEnd => self.comment_end_state(),
+                CommentEndBang => self.comment_end_bang_state(),
+                Doctype => self.doctype_state(),
+                BeforeDoctypeName => self.before_doctype_name_state(),
+                DoctypeName => self.doctype_name_state(),
+                AfterDoctypeName => self.after_doctype_name_state(),
+                AfterDoctypePublicKeyword => self.after_doctype_public_keyword_state(),
+                BeforeDoctypePublicIdentifier => self.before_doctype_public_identifier_state(),
+                DoctypePublicIdentifierDoubleQuoted => self.doctype_public_identifier_double_quoted_state(),
+                DoctypePublicIdentifierSingleQuoted => self.doctype_public_identifier_single_quoted_state(),
+                AfterDoctypePublicIdentifier => self.after_doctype_public_identifier_state(),
+                BetweenDoctypePublicAndSystemIdentifiers => self.between_doctype_public_and_system_identifiers_state(),
+                AfterDoctypeSystemKeyword => self.after_doctype_system_keyword_state(),
+                BeforeDoctypeSystemIdentifier => self.before_doctype_system_identifier_state(),
+                DoctypeSystemIdentifierDoubleQuoted => self.doctype_system_identifier_double_quoted_state(),
+                DoctypeSystemIdentifierSingleQuoted => self.doctype_system_identifier_single_quoted_state(),
+                AfterDoctypeSystemIdentifier => self.after_doctype_system_identifier_state(),
+                BogusDoctype => self.bogus_doctype_state(),
+                CdataSection => self.cdata_section_state(),
+                CdataSectionBracket => self.cdata_section_bracket_state(),
+                CdataSectionEnd => self.cdata_section_end_state(),
+                CharacterReference => self.character_reference_state(),
+                NamedCharacterReference => self.named_character_reference_state(),
+                AmbiguousAmpersand => self.ambiguous_ampersand_state(),
+                NumericCharacterReference => self.numeric_character_reference_state(),
+                HexadecimalCharacterReferenceStart => self.hexadecimal_character_reference_start_state(),
+                DecimalCharacterReferenceStart => self.decimal_character_reference_start_state(),
+                HexadecimalCharacterReference => self.hexadecimal_character_reference_state(),
+                DecimalCharacterReference => self.decimal_character_reference_state(),
+                NumericCharacterReferenceEnd => self.numeric_character_reference_end_state(),
+            }
+        }
+    }
+
+    // -----------------------------------------------------------------------------------------
+    // input stream
+
+    /// Consume the next input character: it becomes the current input character. EOF (`None`)
+    /// can be "consumed" any number of times without moving.
+    fn consume_raw(&mut self) -> Option<char> {
+        let c = self.input.get(self.pos).copied();
+        if c.is_some() {
+            self.pos += 1;
+            if self.pos > self.high_water {
+                self.high_water = self.pos;
+                if c == Some('\n') {
+                    self.line += 1;
+                }
+            }
+        }
+        self.current = c;
+        c
+    }
+
+    /// Consume the next input character on behalf of the current state and record the
+    /// (state, input class) pair.
+    fn consume(&mut self) -> Option<char> {
+        let c = self.consume_raw();
+        self.cov.insert((self.state.name(), class_of(c)));
+        c
+    }
+
+    /// Same as `consume` with the numeric-reference class labels.
+    fn consume_numeric(&mut self) -> Option<char> {
+        let c = self.consume_raw();
+        self.cov.insert((self.state.name(), class_of_numeric(c)));
+        c
+    }
+
+    /// Record a coverage label for a state that does not select its branch on one consumed
+    /// character (look-ahead states).
+    fn note(&mut self, label: &'static str) {
+        self.cov.insert((self.state.name(), label));
+    }
+
+    fn switch_to(&mut self, s: State) {
+        self.state = s;
+    }
+
+    /// "Reconsume in the X state": the current input character becomes the next input
+    /// character again (nothing to undo for EOF).
+    fn reconsume_in(&mut self, s: State) {
+        if self.current.is_some() {
+            self.pos -= 1;
+        }
+        self.state = s;
+    }
+
+    /// Look at the input character `offset` places after the next input character without
+    /// consuming anything.
+    fn peek(&self, offset: usize) -> Option<char> {
+        self.input.get(self.pos + offset).copied()
+    }
+
+    /// Do the characters starting `back` places before the next input character spell `pat`?
+    // SPEC-UNSURE (interface, not spec): characters that are only looked at here are not counted
+    // as consumed for the `line` argument unless the match succeeds and they are then consumed.
+    // None of the matched keywords contains a line break, so this cannot change a line number.
+    fn lookahead_matches(&self, back: usize, pat: &str, ascii_case_insensitive: bool) -> bool {
+        let start = self.pos - back;
+        let mut i = start;
+        for p in pat.chars() {
+            match self.input.get(i) {
+                Some(&c) if c == p || (ascii_case_insensitive && c.eq_ignore_ascii_case(&p)) => i += 1,
+                _ => return false,
+            }
+        }
+        true
+    }
+
+    /// Consume `n` characters that a look-ahead has already matched.
+    fn consume_n(&mut self, n: usize) {
+        for _ in 0..n {
+            self.consume_raw();
+        }
+    }
+
+    // -----------------------------------------------------------------------------------------
+    // emitting
+
+    fn deliver(&mut self, tok: RTok) -> Answer {
+        let line = self.line;
+        self.sink.token(tok, line)
+    }
+
+    /// Emit one character token. U+0000 character tokens (data state, CDATA section) are
+    /// delivered as `RTok::Null`.
+    fn emit_char(&mut self, c: char) {
+        if c == '\0' {
+            self.deliver(RTok::Null);
+        } else {
+            self.deliver(RTok::Chars(c.to_string()));
+        }
+    }
+
+    fn emit_chars(&mut self, s: &str) {
+        for c in s.chars() {
+            self.emit_char(c);
+        }
+    }
+
+    fn emit_eof(&mut self) {
+        self.deliver(RTok::Eof);
+        self.done = true;
+    }
+
+    fn emit_comment(&mut self) {
+        let data = std::mem::take(&mut self.comment);
+        self.deliver(RTok::Comment(data));
+    }
+
+    fn emit_doctype(&mut self) {
+        let d = std::mem::take(&mut self.doctype);
+        self.deliver(RTok::Doctype {
+            name: d.name,
+            public_id: d.public_id,
+            system_id: d.system_id,
+            force_quirks: d.force_quirks,
+        });
+    }
+
+    /// Emit the current tag token. A start tag's name becomes the last start tag name. The
+    /// sink's answer may switch the tokenizer state (the state was already set by the caller,
+    /// as in the spec, before the token is emitted).
+    fn emit_current_tag(&mut self) {
+        self.finish_attribute();
+        let t = std::mem::take(&mut self.tag);
+        let tok = if t.is_end {
+            // end tags with attributes / self-closing flag are parse errors only
+            RTok::End { name: t.name, attrs: t.attrs, self_closing: t.self_closing, dup: t.dup }
+        } else {
+            self.last_start_tag_name = Some(t.name.clone());
+            RTok::Start { name: t.name, attrs: t.attrs, self_closing: t.self_closing, dup: t.dup }
+        };
+        match self.deliver(tok) {
+            Answer::Continue => {},
+            Answer::Rcdata => self.state = State::Rcdata,
+            Answer::Rawtext => self.state = State::Rawtext,
+            Answer::ScriptData => self.state = State::ScriptData,
+            Answer::ScriptDataEscaped => self.state = State::ScriptDataEscaped,
+            Answer::ScriptDataDoubleEscaped => self.state = State::ScriptDataDoubleEscaped,
+            Answer::Plaintext => self.state = State::Plaintext,
+            Answer::Script => self.state = State::Data,
+        }
+    }
+
+    // -----------------------------------------------------------------------------------------
+    // tag / attribute construction
+
+    fn create_start_tag_token(&mut self) {
+        self.tag = TagToken { is_end: false, ..TagToken::default() };
+        self.attribute = None;
+    }
+
+    fn create_end_tag_token(&mut self) {
+        self.tag = TagToken { is_end: true, ..TagToken::default() };
+        self.attribute = None;
+    }
+
+    /// The current attribute is complete: it goes onto the token unless it was removed as a
+    /// duplicate.
+    fn finish_attribute(&mut self) {
+        if let Some(a) = self.attribute.take() {
+            if !a.removed {
+                self.tag.attrs.push((a.name, a.value));
+            }
+        }
+    }
+
+    /// "Start a new attribute in the current tag token" with the given name and empty value.
+    fn start_new_attribute(&mut self, name: &str) {
+        self.finish_attribute();
+        self.attribute = Some(CurrentAttribute { name: name.to_string(), value: String::new(), removed: false });
+    }
+
+    fn append_to_attribute_name(&mut self, c: char) {
+        if let Some(a) = self.attribute.as_mut() {
+            a.name.push(c);
+        }
+    }
+
+    fn append_to_attribute_value(&mut self, c: char) {
+        if let Some(a) = self.attribute.as_mut() {
+            a.value.push(c);
+        }
+    }
+
+    /// "When the user agent leaves the attribute name state (and before emitting the tag token,
+    /// if appropriate), the complete attribute's name must be compared to the other attributes
+    /// on the same token; if there is already an attribute on the token with the exact same
+    /// name, then this is a duplicate-attribute parse error and the new attribute must be
+    /// removed from the token." It remains the current attribute.
+    fn leave_attribute_name_state(&mut self) {
+        if let Some(a) = self.attribute.as_mut() {
+            if self.tag.attrs.iter().any(|(n, _)| *n == a.name) {
+                a.removed = true;
+                self.tag.dup = true;
+            }
+        }
+    }
+
+    /// "An appropriate end tag token is an end tag token whose tag name matches the tag name of
+    /// the last start tag to have been emitted from this tokenizer, if any."
+    fn is_appropriate_end_tag_token(&self) -> bool {
+        self.tag.is_end && self.last_start_tag_name.as_deref() == Some(self.tag.name.as_str())
+    }
+
+    // -----------------------------------------------------------------------------------------
+    // 13.2.5.1 – 13.2.5.5
+
+    fn data_state(&mut self) {
+        match self.consume() {
+            Some('&') => {
+                self.return_state = State::Data;
+                self.switch_to(State::CharacterReference);
+            },
+            Some('<') => self.switch_to(State::TagOpen),
+            // unexpected-null-character; the NUL is emitted as is
+            Some('\0') => self.emit_char('\0'),
+            None => self.emit_eof(),
+            Some(c) => self.emit_char(c),
+        }
+    }
+
+    fn rcdata_state(&mut self) {
+        match self.consume() {
+            Some('&') => {
+                self.return_state = State::Rcdata;
+                self.switch_to(State::CharacterReference);
+            },
+            Some('<') => self.switch_to(State::RcdataLessThanSign),
+            Some('\0') => self.emit_char(REPLACEMENT),
+            None => self.emit_eof(),
+            Some(c) => self.emit_char(c),
+        }
+    }
+
+    fn rawtext_state(&mut self) {
+        match self.consume() {
+            Some('<') => self.switch_to(State::RawtextLessThanSign),
+            Some('\0') => self.emit_char(REPLACEMENT),
+            None => self.emit_eof(),
+            Some(c) => self.emit_char(c),
+        }
+    }
+
+    fn script_data_state(&mut self) {
+        match self.consume() {
+            Some('<') => self.switch_to(State::ScriptDataLessThanSign),
+            Some('\0') => self.emit_char(REPLACEMENT),
+            None => self.emit_eof(),
+            Some(c) => self.emit_char(c),
+        }
+    }
+
+    fn plaintext_state(&mut self) {
+        match self.consume() {
+            Some('\0') => self.emit_char(REPLACEMENT),
+            None => self.emit_eof(),
+            Some(c) => self.emit_char(c),
+        }
+    }
+
+    // -----------------------------------------------------------------------------------------
+    // 13.2.5.6 – 13.2.5.8 tags
+
+    fn tag_open_state(&mut self) {
+        match self.consume() {
+            Some('!') => self.switch_to(State::MarkupDeclarationOpen),
+            Some('/') => self.switch_to(State::EndTagOpen),
+            Some(c) if c.is_ascii_alphabetic() => {
+                self.create_start_tag_token();
+                self.reconsume_in(State::TagName);
+            },
+            Some('?') => {
+                // unexpected-question-mark-instead-of-tag-name
+                self.comment = String::new();
+                self.reconsume_in(State::BogusComment);
+            },
+            None => {
+                // eof-before-tag-name
+                self.emit_char('<');
+                self.emit_eof();
+            },
+            Some(_) => {
+                // invalid-first-character-of-tag-name
+                self.emit_char('<');
+                self.reconsume_in(State::Data);
+            },
+        }
+    }
+
+    fn end_tag_open_state(&mut self) {
+        match self.consume() {
+            Some(c) if c.is_ascii_alphabetic() => {
+                self.create_end_tag_token();
+                self.reconsume_in(State::TagName);
+            },
+            // missing-end-tag-name
+            Some('>') => self.switch_to(State::Data),
+            None => {
+                // eof-before-tag-name
+                self.emit_chars("</");
+                self.emit_eof();
+            },
+            Some(_) => {
+                // invalid-first-character-of-tag-name
+                self.comment = String::new();
+                self.reconsume_in(State::BogusComment);
+            },
+        }
+    }
+
+    fn tag_name_state(&mut self) {
+        match self.consume() {
+            Some(c) if is_ws(c) => self.switch_to(State::BeforeAttributeName),
+            Some('/') => self.switch_to(State::SelfClosingStartTag),
+            Some('>') => {
+                self.switch_to(State::Data);
+                self.emit_current_tag();
+            },
+            Some(c) if c.is_ascii_uppercase() => self.tag.name.push(lower(c)),
+            Some('\0') => self.tag.name.push(REPLACEMENT),
+            // eof-in-tag: the tag token is dropped
+            None => self.emit_eof(),
+            Some(c) => self.tag.name.push(c),
+        }
+    }
+
+    // -----------------------------------------------------------------------------------------
+    // 13.2.5.9 – 13.2.5.17 RCDATA / RAWTEXT / script data end tags
+
+    /// Shared body of the "X less-than sign" states of RCDATA and RAWTEXT.
+    fn raw_less_than_sign(&mut self, end_tag_open: State, text: State) {
+        match self.consume() {
+            Some('/') => {
+                self.temporary_buffer.clear();
+                self.switch_to(end_tag_open);
+            },
+            _ => {
+                self.emit_char('<');
+                self.reconsume_in(text);
+            },
+        }
+    }
+
+    /// Shared body of the "X end tag open" states.
+    fn raw_end_tag_open(&mut self, end_tag_name: State, text: State) {
+        match self.consume() {
+            Some(c) if c.is_ascii_alphabetic() => {
+                self.create_end_tag_token();
+                self.reconsume_in(end_tag_name);
+            },
+            _ => {
+                self.emit_chars("</");
+                self.reconsume_in(text);
+            },
+        }
+    }
+
+    /// Shared body of the "X end tag name" states.
+    fn raw_end_tag_name(&mut self, text: State) {
+        let c = self.consume();
+        match c {
+            Some(c) if is_ws(c) && self.is_appropriate_end_tag_token() => {
+                self.switch_to(State::BeforeAttributeName);
+                return;
+            },
+            Some('/') if self.is_appropriate_end_tag_token() => {
+                self.switch_to(State::SelfClosingStartTag);
+                return;
+            },
+            Some('>') if self.is_appropriate_end_tag_token() => {
+                self.switch_to(State::Data);
+                self.emit_current_tag();
+                return;
+            },
+            Some(c) if c.is_ascii_uppercase() => {
+                self.tag.name.push(lower(c));
+                self.temporary_buffer.push(c);
+                return;
+            },
+            Some(c) if c.is_ascii_lowercase() => {
+                self.tag.name.push(c);
+                self.temporary_buffer.push(c);
+                return;
+            },
+            _ => {},
+        }
+        // anything else (including the "otherwise, treat it as per the anything else entry")
+        self.emit_chars("</");
+        let buf = std::mem::take(&mut self.temporary_buffer);
+        self.emit_chars(&buf);
+        self.reconsume_in(text);
+    }
+
+    fn rcdata_less_than_sign_state(&mut self) {
+        self.raw_less_than_sign(State::RcdataEndTagOpen, State::Rcdata);
+    }
+
+    fn rcdata_end_tag_open_state(&mut self) {
+        self.raw_end_tag_open(State::RcdataEndTagName, State::Rcdata);
+    }
+
+    fn rcdata_end_tag_name_state(&mut self) {
+        self.raw_end_tag_name(State::Rcdata);
+    }
+
+    fn rawtext_less_than_sign_state(&mut self) {
+        self.raw_less_than_sign(State::RawtextEndTagOpen, State::Rawtext);
+    }
+
+    fn rawtext_end_tag_open_state(&mut self) {
+        self.raw_end_tag_open(State::RawtextEndTagName, State::Rawtext);
+    }
+
+    fn rawtext_end_tag_name_state(&mut self) {
+        self.raw_end_tag_name(State::Rawtext);
+    }
+
+    fn script_data_less_than_sign_state(&mut self) {
+        match self.consume() {
+            Some('/') => {
+                self.temporary_buffer.clear();
+                self.switch_to(State::ScriptDataEndTagOpen);
+            },
+            Some('!') => {
+                self.switch_to(State::ScriptDataEscapeStart);
+                self.emit_chars("<!");
+            },
+            _ => {
+                self.emit_char('<');
+                self.reconsume_in(State::ScriptData);
+            },
+        }
+    }
+
+    fn script_data_end_tag_open_state(&mut self) {
+        self.raw_end_tag_open(State::ScriptDataEndTagName, State::ScriptData);
+    }
+
+    fn script_data_end_tag_name_state(&mut self) {
+        self.raw_end_tag_name(State::ScriptData);
+    }
+
+    // -----------------------------------------------------------------------------------------
+    // 13.2.5.18 – 13.2.5.31 script data escaped / double escaped
+
+    fn script_data_escape_start_state(&mut self) {
+        match self.consume() {
+            Some('-') => {
+                self.switch_to(State::ScriptDataEscapeStartDash);
+                self.emit_char('-');
+            },
+            _ => self.reconsume_in(State::ScriptData),
+        }
+    }
+
+    fn script_data_escape_start_dash_state(&mut self) {
+        match self.consume() {
+            Some('-') => {
+                self.switch_to(State::ScriptDataEscapedDashDash);
+                self.emit_char('-');
+            },
+            _ => self.reconsume_in(State::ScriptData),
+        }
+    }
+
+    fn script_data_escaped_state(&mut self) {
+        match self.consume() {
+            Some('-') => {
+                self.switch_to(State::ScriptDataEscapedDash);
+                self.emit_char('-');
+            },
+            Some('<') => self.switch_to(State::ScriptDataEscapedLessThanSign),
+            Some('\0') => self.emit_char(REPLACEMENT),
+            // eof-in-script-html-comment-like-text
+            None => self.emit_eof(),
+            Some(c) => self.emit_char(c),
+        }
+    }
+
+    fn script_data_escaped_dash_state(&mut self) {
+        match self.consume() {
+            Some('-') => {
+                self.switch_to(State::ScriptDataEscapedDashDash);
+                self.emit_char('-');
+            },
+            Some('<') => self.switch_to(State::ScriptDataEscapedLessThanSign),
+            Some('\0') => {
+                self.switch_to(State::ScriptDataEscaped);
+                self.emit_char(REPLACEMENT);
+            },
+            None => self.emit_eof(),
+            Some(c) => {
+                self.switch_to(State::ScriptDataEscaped);
+                self.emit_char(c);
+            },
+        }
+    }
+
+    fn script_data_escaped_dash_dash_state(&mut self) {
+        match self.consume() {
+            Some('-') => self.emit_char('-'),
+            Some('<') => self.switch_to(State::ScriptDataEscapedLessThanSign),
+            Some('>') => {
+                self.switch_to(State::ScriptData);
+                self.emit_char('>');
+            },
+            Some('\0') => {
+                self.switch_to(State::ScriptDataEscaped);
+                self.emit_char(REPLACEMENT);
+            },
+            None => self.emit_eof(),
+            Some(c) => {
+                self.switch_to(State::ScriptDataEscaped);
+                self.emit_char(c);
+            },
+        }
+    }
+
+    fn script_data_escaped_less_than_sign_state(&mut self) {
+        match self.consume() {
+            Some('/') => {
+                self.temporary_buffer.clear();
+                self.switch_to(State::ScriptDataEscapedEndTagOpen);
+            },
+            Some(c) if c.is_ascii_alphabetic() => {
+                self.temporary_buffer.clear();
+                self.emit_char('<');
+                self.reconsume_in(State::ScriptDataDoubleEscapeStart);
+            },
+            _ => {
+                self.emit_char('<');
+                self.reconsume_in(State::ScriptDataEscaped);
+            },
+        }
+    }
+
+    fn script_data_escaped_end_tag_open_state(&mut self) {
+        self.raw_end_tag_open(State::ScriptDataEscapedEndTagName, State::ScriptDataEscaped);
+    }
+
+    fn script_data_escaped_end_tag_name_state(&mut self) {
+        self.raw_end_tag_name(State::ScriptDataEscaped);
+    }
+
+    /// Shared body of "script data double escape start" / "script data double escape end":
+    /// collects a name in the temporary buffer (emitting every character) and, at its end,
+    /// goes to `if_script` when the name is "script" and to `otherwise` when it is not.
+    fn script_data_double_escape_boundary(&mut self, if_script: State, otherwise: State) {
+        match self.consume() {
+            Some(c) if is_ws(c) || c == '/' || c == '>' => {
+                if self.temporary_buffer == "script" {
+                    self.switch_to(if_script);
+                } else {
+                    self.switch_to(otherwise);
+                }
+                self.emit_char(c);
+            },
+            Some(c) if c.is_ascii_uppercase() => {
+                self.temporary_buffer.push(lower(c));
+                self.emit_char(c);
+            },
+            Some(c) if c.is_ascii_lowercase() => {
+                self.temporary_buffer.push(c);
+                self.emit_char(c);
+            },
+            _ => self.reconsume_in(otherwise),
+        }
+    }
+
+    fn script_data_double_escape_start_state(&mut self) {
+        self.script_data_double_escape_boundary(State::ScriptDataDoubleEscaped, State::ScriptDataEscaped);
+    }
+
+    fn script_data_double_escaped_state(&mut self) {
+        match self.consume() {
+            Some('-') => {
+                self.switch_to(State::ScriptDataDoubleEscapedDash);
+                self.emit_char('-');
+            },
+            Some('<') => {
+                self.switch_to(State::ScriptDataDoubleEscapedLessThanSign);
+                self.emit_char('<');
+            },
+            Some('\0') => self.emit_char(REPLACEMENT),
+            // eof-in-script-html-comment-like-text
+            None => self.emit_eof(),
+            Some(c) => self.emit_char(c),
+        }
+    }
+
+    fn script_data_double_escaped_dash_state(&mut self) {
+        match self.consume() {
+            Some('-') => {
+                self.switch_to(State::ScriptDataDoubleEscapedDashDash);
+                self.emit_char('-');
+            },
+            Some('<') => {
+                self.switch_to(State::ScriptDataDoubleEscapedLessThanSign);
+                self.emit_char('<');
+            },
+            Some('\0') => {
+                self.switch_to(State::ScriptDataDoubleEscaped);
+                self.emit_char(REPLACEMENT);
+            },
+            None => self.emit_eof(),
+            Some(c) => {
+                self.switch_to(State::ScriptDataDoubleEscaped);
+                self.emit_char(c);
+            },
+        }
+    }
+
+    fn script_data_double_escaped_dash_dash_state(&mut self) {
+        match self.consume() {
+            Some('-') => self.emit_char('-'),
+            Some('<') => {
+                self.switch_to(State::ScriptDataDoubleEscapedLessThanSign);
+                self.emit_char('<');
+            },
+            Some('>') => {
+                self.switch_to(State::ScriptData);
+                self.emit_char('>');
+            },
+            Some('\0') => {
+                self.switch_to(State::ScriptDataDoubleEscaped);
+                self.emit_char(REPLACEMENT);
+            },
+            None => self.emit_eof(),
+            Some(c) => {
+                self.switch_to(State::ScriptDataDoubleEscaped);
+                self.emit_char(c);
+            },
+        }
+    }
+
+    fn script_data_double_escaped_less_than_sign_state(&mut self) {
+        match self.consume() {
+            Some('/') => {
+                self.temporary_buffer.clear();
+                self.switch_to(State::ScriptDataDoubleEscapeEnd);
+                self.emit_char('/');
+            },
+            _ => self.reconsume_in(State::ScriptDataDoubleEscaped),
+        }
+    }
+
+    fn script_data_double_escape_end_state(&mut self) {
+        self.script_data_double_escape_boundary(State::ScriptDataEscaped, State::ScriptDataDoubleEscaped);
+    }
+
+    // -----------------------------------------------------------------------------------------
+    // 13.2.5.32 – 13.2.5.40 attributes
+
+    fn before_attribute_name_state(&mut self) {
+        match self.consume() {
+            Some(c) if is_ws(c) => {},
+            Some('/') | Some('>') | None => self.reconsume_in(State::AfterAttributeName),
+            Some('=') => {
+                // unexpected-equals-sign-before-attribute-name
+                self.start_new_attribute("=");
+                self.switch_to(State::AttributeName);
+            },
+            Some(_) => {
+                self.start_new_attribute("");
+                self.reconsume_in(State::AttributeName);
+            },
+        }
+    }
+
+    fn attribute_name_state(&mut self) {
+        match self.consume() {
+            Some('/') | Some('>') | None => {
+                self.leave_attribute_name_state();
+                self.reconsume_in(State::AfterAttributeName);
+            },
+            Some(c) if is_ws(c) => {
+                self.leave_attribute_name_state();
+                self.reconsume_in(State::AfterAttributeName);
+            },
+            Some('=') => {
+                self.leave_attribute_name_state();
+                self.switch_to(State::BeforeAttributeValue);
+            },
+            Some(c) if c.is_ascii_uppercase() => self.append_to_attribute_name(lower(c)),
+            Some('\0') => self.append_to_attribute_name(REPLACEMENT),
+            // '"', '\'', '<': unexpected-character-in-attribute-name, then as anything else
+            Some(c) => self.append_to_attribute_name(c),
+        }
+    }
+
+    fn after_attribute_name_state(&mut self) {
+        match self.consume() {
+            Some(c) if is_ws(c) => {},
+            Some('/') => self.switch_to(State::SelfClosingStartTag),
+            Some('=') => self.switch_to(State::BeforeAttributeValue),
+            Some('>') => {
+                self.switch_to(State::Data);
+                self.emit_current_tag();
+            },
+            // eof-in-tag
+            None => self.emit_eof(),
+            Some(_) => {
+                self.start_new_attribute("");
+                self.reconsume_in(State::AttributeName);
+            },
+        }
+    }
+
+    fn before_attribute_value_state(&mut self) {
+        match self.consume() {
+            Some(c) if is_ws(c) => {},
+            Some('"') => self.switch_to(State::AttributeValueDoubleQuoted),
+            Some('\'') => self.switch_to(State::AttributeValueSingleQuoted),
+            Some('>') => {
+                // missing-attribute-value
+                self.switch_to(State::Data);
+                self.emit_current_tag();
+            },
+            _ => self.reconsume_in(State::AttributeValueUnquoted),
+        }
+    }
+
+    /// Shared body of the two quoted attribute value states.
+    fn attribute_value_quoted(&mut self, quote: char, this: State) {
+        match self.consume() {
+            Some(c) if c == quote => self.switch_to(State::AfterAttributeValueQuoted),
+            Some('&') => {
+                self.return_state = this;
+                self.switch_to(State::CharacterReference);
+            },
+            Some('\0') => self.append_to_attribute_value(REPLACEMENT),
+            // eof-in-tag
+            None => self.emit_eof(),
+            Some(c) => self.append_to_attribute_value(c),
+        }
+    }
+
+    fn attribute_value_double_quoted_state(&mut self) {
+        self.attribute_value_quoted('"', State::AttributeValueDoubleQuoted);
+    }
+
+    fn attribute_value_single_quoted_state(&mut self) {
+        self.attribute_value_quoted('\'', State::AttributeValueSingleQuoted);
+    }
+
+    fn attribute_value_unquoted_state(&mut self) {
+        match self.consume() {
+            Some(c) if is_ws(c) => self.switch_to(State::BeforeAttributeName),
+            Some('&') => {
+                self.return_state = State::AttributeValueUnquoted;
+                self.switch_to(State::CharacterReference);
+            },
+            Some('>') => {
+                self.switch_to(State::Data);
+                self.emit_current_tag();
+            },
+            Some('\0') => self.append_to_attribute_value(REPLACEMENT),
+            // eof-in-tag
+            None => self.emit_eof(),
+            // '"', '\'', '<', '=', '`': unexpected-character-in-unquoted-attribute-value, then
+            // as anything else
+            Some(c) => self.append_to_attribute_value(c),
+        }
+    }
+
+    fn after_attribute_value_quoted_state(&mut self) {
+        match self.consume() {
+            Some(c) if is_ws(c) => self.switch_to(State::BeforeAttributeName),
+            Some('/') => self.switch_to(State::SelfClosingStartTag),
+            Some('>') => {
+                self.switch_to(State::Data);
+                self.emit_current_tag();
+            },
+            // eof-in-tag
+            None => self.emit_eof(),
+            // missing-whitespace-between-attributes
+            Some(_) => self.reconsume_in(State::BeforeAttributeName),
+        }
+    }
+
+    fn self_closing_start_tag_state(&mut self) {
+        match self.consume() {
+            Some('>') => {
+                self.tag.self_closing = true;
+                self.switch_to(State::Data);
+                self.emit_current_tag();
+            },
+            // eof-in-tag
+            None => self.emit_eof(),
+            // unexpected-solidus-in-tag
+            Some(_) => self.reconsume_in(State::BeforeAttributeName),
+        }
+    }
+
+    // -----------------------------------------------------------------------------------------
+    // 13.2.5.41 – 13.2.5.52 comments
+
+    fn bogus_comment_state(&mut self) {
+        match self.consume() {
+            Some('>') => {
+                self.switch_to(State::Data);
+                self.emit_comment();
+            },
+            None => {
+                self.emit_comment();
+                self.emit_eof();
+            },
+            Some('\0') => self.comment.push(REPLACEMENT),
+            Some(c) => self.comment.push(c),
+        }
+    }
+
+    fn markup_declaration_open_state(&mut self) {
+        if self.lookahead_matches(0, "--", false) {
+            self.note("--");
+            self.consume_n(2);
+            self.comment = String::new();
+            self.switch_to(State::CommentStart);
+        } else if self.lookahead_matches(0, "DOCTYPE", true) {
+            self.note("doctype");
+            self.consume_n(7);
+            self.switch_to(State::Doctype);
+        } else if self.lookahead_matches(0, "[CDATA[", false) {
+            self.consume_n(7);
+            if self.sink.foreign() {
+                self.note("[CDATA[-foreign");
+                self.switch_to(State::CdataSection);
+            } else {
+                // cdata-in-html-content
+                self.note("[CDATA[-html");
+                self.comment = "[CDATA[".to_string();
+                self.switch_to(State::BogusComment);
+            }
+        } else {
+            // incorrectly-opened-comment; nothing is consumed
+            self.note("other");
+            self.comment = String::new();
+            self.switch_to(State::BogusComment);
+        }
+    }
+
+    fn comment_start_state(&mut self) {
+        match self.consume() {
+            Some('-') => self.switch_to(State::CommentStartDash),
+            Some('>') => {
+                // abrupt-closing-of-empty-comment
+                self.switch_to(State::Data);
+                self.emit_comment();
+            },
+            _ => self.reconsume_in(State::Comment),
+        }
+    }
+
+    fn comment_start_dash_state(&mut self) {
+        match self.consume() {
+            Some('-') => self.switch_to(State::CommentEnd),
+            Some('>') => {
+                // abrupt-closing-of-empty-comment
+                self.switch_to(State::Data);
+                self.emit_comment();
+            },
+            None => {
+                // eof-in-comment
+                self.emit_comment();
+                self.emit_eof();
+            },
+            Some(_) => {
+                self.comment.push('-');
+                self.reconsume_in(State::Comment);
+            },
+        }
+    }
+
+    fn comment_state(&mut self) {
+        match self.consume() {
+            Some('<') => {
+                self.comment.push('<');
+                self.switch_to(State::CommentLessThanSign);
+            },
+            Some('-') => self.switch_to(State::CommentEndDash),
+            Some('\0') => self.comment.push(REPLACEMENT),
+            None => {
+                // eof-in-comment
+                self.emit_comment();
+                self.emit_eof();
+            },
+            Some(c) => self.comment.push(c),
+        }
+    }
+
+    fn comment_less_than_sign_state(&mut self) {
+        match self.consume() {
+            Some('!') => {
+                self.comment.push('!');
+                self.switch_to(State::CommentLessThanSignBang);
+            },
+            Some('<') => self.comment.push('<'),
+            _ => self.reconsume_in(State::Comment),
+        }
+    }
+
+    fn comment_less_than_sign_bang_state(&mut self) {
+        match self.consume() {
+            Some('-') => self.switch_to(State::CommentLessThanSignBangDash),
+            _ => self.reconsume_in(State::Comment),
+        }
+    }
+
+    fn comment_less_than_sign_bang_dash_state(&mut self) {
+        match self.consume() {
+            Some('-') => self.switch_to(State::CommentLessThanSignBangDashDash),
+            _ => self.reconsume_in(State::CommentEndDash),
+        }
+    }
+
+    fn comment_less_than_sign_bang_dash_dash_state(&mut self) {
+        match self.consume() {
+            Some('>') | None => self.reconsume_in(State::CommentEnd),
+            // nested-comment parse error; same transition
+            // SPEC-UNSURE: that EOF is in the error-free branch (no effect on tokens).
+            Some(_) => self.reconsume_in(State::CommentEnd),
+        }
+    }
+
+    fn comment_end_dash_state(&mut self) {
+        match self.consume() {
+            Some('-') => self.switch_to(State::CommentEnd),
+            None => {
+                // eof-in-comment
+                self.emit_comment();
+                self.emit_eof();
+            },
+            Some(_) => {
+                self.comment.push('-');
+                self.reconsume_in(State::Comment);
+            },
+        }
+    }
+
+    fn comment_end_state(&mut self) {
+        match self.consume() {
+            Some('>') => {
+                self.switch_to(State::Data);
+                self.emit_comment();
+            },
+            Some('!') => self.switch_to(State::CommentEndBang),
+            Some('-') => self.comment.push('-'),
+            None => {
+                // eof-in-comment
+                self.emit_comment();
+                self.emit_eof();
+            },
+            Some(_) => {
+                self.comment.push_str("--");
+                self.reconsume_in(State::Comment);
+            },
+        }
+    }
+
+    fn comment_end_bang_state(&mut self) {
+        match self.consume() {
+            Some('-') => {
+                self.comment.push_str("--!");
+                self.switch_to(State::CommentEndDash);
+            },
+            Some('>') => {
+                // incorrectly-closed-comment
+                self.switch_to(State::Data);
+                self.emit_comment();
+            },
+            None => {
+                // eof-in-comment
+                self.emit_comment();
+                self.emit_eof();
+            },
+            Some(_) => {
+                self.comment.push_str("--!");
+                self.reconsume_in(State::Comment);
+            },
+        }
+    }
+
+    // -----------------------------------------------------------------------------------------
+    // 13.2.5.53 – 13.2.5.68 DOCTYPE
+
+    /// "Set the current DOCTYPE token's force-quirks flag to on. Emit the current DOCTYPE
+    /// token. Emit an end-of-file token." (eof-in-doctype)
+    fn doctype_eof(&mut self) {
+        self.doctype.force_quirks = true;
+        self.emit_doctype();
+        self.emit_eof();
+    }
+
+    /// "Set the current DOCTYPE token's force-quirks flag to on. Switch to the data state.
+    /// Emit the current DOCTYPE token."
+    fn doctype_abrupt_close(&mut self) {
+        self.doctype.force_quirks = true;
+        self.switch_to(State::Data);
+        self.emit_doctype();
+    }
+
+    /// "Set the current DOCTYPE token's force-quirks flag to on. Reconsume in the bogus
+    /// DOCTYPE state."
+    fn doctype_bogus_with_quirks(&mut self) {
+        self.doctype.force_quirks = true;
+        self.reconsume_in(State::BogusDoctype);
+    }
+
+    fn doctype_state(&mut self) {
+        match self.consume() {
+            Some(c) if is_ws(c) => self.switch_to(State::BeforeDoctypeName),
+            Some('>') => self.reconsume_in(State::BeforeDoctypeName),
+            None => {
+                // eof-in-doctype
+                self.doctype = DoctypeToken::default();
+                self.doctype_eof();
+            },
+            // missing-whitespace-before-doctype-name
+            Some(_) => self.reconsume_in(State::BeforeDoctypeName),
+        }
+    }
+
+    fn before_doctype_name_state(&mut self) {
+        match self.consume() {
+            Some(c) if is_ws(c) => {},
+            Some(c) if c.is_ascii_uppercase() => {
+                self.doctype = DoctypeToken { name: Some(lower(c).to_string()), ..DoctypeToken::default() };
+                self.switch_to(State::DoctypeName);
+            },
+            Some('\0') => {
+                self.doctype = DoctypeToken { name: Some(REPLACEMENT.to_string()), ..DoctypeToken::default() };
+                self.switch_to(State::DoctypeName);
+            },
+            Some('>') => {
+                // missing-doctype-name
+                self.doctype = DoctypeToken::default();
+                self.doctype_abrupt_close();
+            },
+            None => {
+                // eof-in-doctype
+                self.doctype = DoctypeToken::default();
+                self.doctype_eof();
+            },
+            Some(c) => {
+                self.doctype = DoctypeToken { name: Some(c.to_string()), ..DoctypeToken::default() };
+                self.switch_to(State::DoctypeName);
+            },
+        }
+    }
+
+    fn doctype_name_push(&mut self, c: char) {
+        self.doctype.name.get_or_insert_with(String::new).push(c);
+    }
+
+    fn doctype_name_state(&mut self) {
+        match self.consume() {
+            Some(c) if is_ws(c) => self.switch_to(State::AfterDoctypeName),
+            Some('>') => {
+                self.switch_to(State::Data);
+                self.emit_doctype();
+            },
+            Some(c) if c.is_ascii_uppercase() => self.doctype_name_push(lower(c)),
+            Some('\0') => self.doctype_name_push(REPLACEMENT),
+            None => self.doctype_eof(),
+            Some(c) => self.doctype_name_push(c),
+        }
+    }
+
+    fn after_doctype_name_state(&mut self) {
+        match self.consume_raw() {
+            Some(c) if is_ws(c) => self.note(class_of(Some(c))),
+            Some('>') => {
+                self.note(">");
+                self.switch_to(State::Data);
+                self.emit_doctype();
+            },
+            None => {
+                self.note("eof");
+                self.doctype_eof();
+            },
+            Some(_) => {
+                // "If the six characters starting from the current input character are an ASCII
+                // case-insensitive match for ..., then consume those characters"
+                if self.lookahead_matches(1, "PUBLIC", true) {
+                    self.note("public");
+                    self.consume_n(5);
+                    self.switch_to(State::AfterDoctypePublicKeyword);
+                } else if self.lookahead_matches(1, "SYSTEM", true) {
+                    self.note("system");
+                    self.consume_n(5);
+                    self.switch_to(State::AfterDoctypeSystemKeyword);
+                } else {
+                    // invalid-character-sequence-after-doctype-name
+                    let label = class_of(self.current);
+                    self.note(label);
+                    self.doctype_bogus_with_quirks();
+                }
+            },
+        }
+    }
+
+    fn after_doctype_public_keyword_state(&mut self) {
+        match self.consume() {
+            Some(c) if is_ws(c) => self.switch_to(State::BeforeDoctypePublicIdentifier),
+            Some('"') => {
+                // missing-whitespace-after-doctype-public-keyword
+                self.doctype.public_id = Some(String::new());
+                self.switch_to(State::DoctypePublicIdentifierDoubleQuoted);
+            },
+            Some('\'') => {
+                self.doctype.public_id = Some(String::new());
+                self.switch_to(State::DoctypePublicIdentifierSingleQuoted);
+            },
+            // missing-doctype-public-identifier
+            Some('>') => self.doctype_abrupt_close(),
+            None => self.doctype_eof(),
+            // missing-quote-before-doctype-public-identifier
+            Some(_) => self.doctype_bogus_with_quirks(),
+        }
+    }
+
+    fn before_doctype_public_identifier_state(&mut self) {
+        match self.consume() {
+            Some(c) if is_ws(c) => {},
+            Some('"') => {
+                self.doctype.public_id = Some(String::new());
+                self.switch_to(State::DoctypePublicIdentifierDoubleQuoted);
+            },
+            Some('\'') => {
+                self.doctype.public_id = Some(String::new());
+                self.switch_to(State::DoctypePublicIdentifierSingleQuoted);
+            },
+            // missing-doctype-public-identifier
+            Some('>') => self.doctype_abrupt_close(),
+            None => self.doctype_eof(),
+            // missing-quote-before-doctype-public-identifier
+            Some(_) => self.doctype_bogus_with_quirks(),
+        }
+    }
+
+    /// Shared body of the two quoted public identifier states.
+    fn doctype_public_identifier_quoted(&mut self, quote: char) {
+        match self.consume() {
+            Some(c) if c == quote => self.switch_to(State::AfterDoctypePublicIdentifier),
+            Some('\0') => self.doctype.public_id.get_or_insert_with(String::new).push(REPLACEMENT),
+            // abrupt-doctype-public-identifier
+            Some('>') => self.doctype_abrupt_close(),
+            None => self.doctype_eof(),
+            Some(c) => self.doctype.public_id.get_or_insert_with(String::new).push(c),
+        }
+    }
+
+    fn doctype_public_identifier_double_quoted_state(&mut self) {
+        self.doctype_public_identifier_quoted('"');
+    }
+
+    fn doctype_public_identifier_single_quoted_state(&mut self) {
+        self.doctype_public_identifier_quoted('\'');
+    }
+
+    fn after_doctype_public_identifier_state(&mut self) {
+        match self.consume() {
+            Some(c) if is_ws(c) => self.switch_to(State::BetweenDoctypePublicAndSystemIdentifiers),
+            Some('>') => {
+                self.switch_to(State::Data);
+                self.emit_doctype();
+            },
+            Some('"') => {
+                // missing-whitespace-between-doctype-public-and-system-identifiers
+                self.doctype.system_id = Some(String::new());
+                self.switch_to(State::DoctypeSystemIdentifierDoubleQuoted);
+            },
+            Some('\'') => {
+                self.doctype.system_id = Some(String::new());
+                self.switch_to(State::DoctypeSystemIdentifierSingleQuoted);
+            },
+            None => self.doctype_eof(),
+            // missing-quote-before-doctype-system-identifier
+            Some(_) => self.doctype_bogus_with_quirks(),
+        }
+    }
+
+    fn between_doctype_public_and_system_identifiers_state(&mut self) {
+        match self.consume() {
+            Some(c) if is_ws(c) => {},
+            Some('>') => {
+                self.switch_to(State::Data);
+                self.emit_doctype();
+            },
+            Some('"') => {
+                self.doctype.system_id = Some(String::new());
+                self.switch_to(State::DoctypeSystemIdentifierDoubleQuoted);
+            },
+            Some('\'') => {
+                self.doctype.system_id = Some(String::new());
+                self.switch_to(State::DoctypeSystemIdentifierSingleQuoted);
+            },
+            None => self.doctype_eof(),
+            // missing-quote-before-doctype-system-identifier
+            Some(_) => self.doctype_bogus_with_quirks(),
+        }
+    }
+
+    fn after_doctype_system_keyword_state(&mut self) {
+        match self.consume() {
+            Some(c) if is_ws(c) => self.switch_to(State::BeforeDoctypeSystemIdentifier),
+            Some('"') => {
+                // missing-whitespace-after-doctype-system-keyword
+                self.doctype.system_id = Some(String::new());
+                self.switch_to(State::DoctypeSystemIdentifierDoubleQuoted);
+            },
+            Some('\'') => {
+                self.doctype.system_id = Some(String::new());
+                self.switch_to(State::DoctypeSystemIdentifierSingleQuoted);
+            },
+            // missing-doctype-system-identifier
+            Some('>') => self.doctype_abrupt_close(),
+            None => self.doctype_eof(),
+            // missing-quote-before-doctype-system-identifier
+            Some(_) => self.doctype_bogus_with_quirks(),
+        }
+    }
+
+    fn before_doctype_system_identifier_state(&mut self) {
+        match self.consume() {
+            Some(c) if is_ws(c) => {},
+            Some('"') => {
+                self.doctype.system_id = Some(String::new());
+                self.switch_to(State::DoctypeSystemIdentifierDoubleQuoted);
+            },
+            Some('\'') => {
+                self.doctype.system_id = Some(String::new());
+                self.switch_to(State::DoctypeSystemIdentifierSingleQuoted);
+            },
+            // missing-doctype-system-identifier
+            Some('>') => self.doctype_abrupt_close(),
+            None => self.doctype_eof(),
+            // missing-quote-before-doctype-system-identifier
+            Some(_) => self.doctype_bogus_with_quirks(),
+        }
+    }
+
+    /// Shared body of the two quoted system identifier states.
+    fn doctype_system_identifier_quoted(&mut self, quote: char) {
+        match self.consume() {
+            Some(c) if c == quote => self.switch_to(State::AfterDoctypeSystemIdentifier),
+            Some('\0') => self.doctype.system_id.get_or_insert_with(String::new).push(REPLACEMENT),
+            // abrupt-doctype-system-identifier
+            Some('>') => self.doctype_abrupt_close(),
+            None => self.doctype_eof(),
+            Some(c) => self.doctype.system_id.get_or_insert_with(String::new).push(c),
+        }
+    }
+
+    fn doctype_system_identifier_double_quoted_state(&mut self) {
+        self.doctype_system_identifier_quoted('"');
+    }
+
+    fn doctype_system_identifier_single_quoted_state(&mut self) {
+        self.doctype_system_identifier_quoted('\'');
+    }
+
+    fn after_doctype_system_identifier_state(&mut self) {
+        match self.consume() {
+            Some(c) if is_ws(c) => {},
+            Some('>') => {
+                self.switch_to(State::Data);
+                self.emit_doctype();
+            },
+            None => self.doctype_eof(),
+            // unexpected-character-after-doctype-system-identifier: this does NOT set the
+            // force-quirks flag
+            // SPEC-UNSURE: from memory this is the only "junk" DOCTYPE branch that leaves the flag
+            // off (matches the html5lib expectation for `<!DOCTYPE a PUBLIC "p" "s" x>`).
+            Some(_) => self.reconsume_in(State::BogusDoctype),
+        }
+    }
+
+    fn bogus_doctype_state(&mut self) {
+        match self.consume() {
+            Some('>') => {
+                self.switch_to(State::Data);
+                self.emit_doctype();
+            },
+            None => {
+                self.emit_doctype();
+                self.emit_eof();
+            },
+            // NUL is an unexpected-null-character parse error and is ignored like the rest
+            Some(_) => {},
+        }
+    }
+
+    // -----------------------------------------------------------------------------------------
+    // 13.2.5.69 – 13.2.5.71 CDATA sections
+
+    fn cdata_section_state(&mut self) {
+        match self.consume() {
+            Some(']') => self.switch_to(State::CdataSectionBracket),
+            // eof-in-cdata
+            None => self.emit_eof(),
+            // U+0000 is emitted as is (the tree construction stage deals with it)
+            // SPEC-UNSURE: the CDATA section state has no U+0000 entry as far as I remember.
+            Some(c) => self.emit_char(c),
+        }
+    }
+
+    fn cdata_section_bracket_state(&mut self) {
+        match self.consume() {
+            Some(']') => self.switch_to(State::CdataSectionEnd),
+            _ => {
+                self.emit_char(']');
+                self.reconsume_in(State::CdataSection);
+            },
+        }
+    }
+
+    fn cdata_section_end_state(&mut self) {
+        match self.consume() {
+            Some(']') => self.emit_char(']'),
+            Some('>') => self.switch_to(State::Data),
+            _ => {
+                self.emit_chars("]]");
+                self.reconsume_in(State::CdataSection);
+            },
+        }
+    }
+
+    // -----------------------------------------------------------------------------------------
+    // 13.2.5.72 – 13.2.5.80 character references
+
+    /// "A character reference is said to be consumed as part of an attribute if the return
+    /// state is either attribute value (double-quoted) state, attribute value (single-quoted)
+    /// state, or attribute value (unquoted) state."
+    fn consumed_as_part_of_an_attribute(&self) -> bool {
+        matches!(
+            self.return_state,
+            State::AttributeValueDoubleQuoted | State::AttributeValueSingleQuoted | State::AttributeValueUnquoted
+        )
+    }
+
+    /// "Flush code points consumed as a character reference": each code point of the temporary
+    /// buffer goes to the current attribute's value or is emitted as a character token.
+    fn flush_code_points_consumed_as_a_character_reference(&mut self) {
+        let buf = std::mem::take(&mut self.temporary_buffer);
+        let in_attr = self.consumed_as_part_of_an_attribute();
+        for c in buf.chars() {
+            if in_attr {
+                self.append_to_attribute_value(c);
+            } else {
+                self.emit_char(c);
+            }
+        }
+    }
+
+    fn character_reference_state(&mut self) {
+        self.temporary_buffer.clear();
+        self.temporary_buffer.push('&');
+        match self.consume() {
+            Some(c) if c.is_ascii_alphanumeric() => self.reconsume_in(State::NamedCharacterReference),
+            Some('#') => {
+                self.temporary_buffer.push('#');
+                self.switch_to(State::NumericCharacterReference);
+            },
+            _ => {
+                self.flush_code_points_consumed_as_a_character_reference();
+                let rs = self.return_state;
+                self.reconsume_in(rs);
+            },
+        }
+    }
+
+    /// Longest prefix of the upcoming input that is an identifier of the named character
+    /// reference table: (number of characters, replacement). Pure look-ahead.
+    fn longest_named_reference(&self) -> Option<(usize, &'static str)> {
+        let mut lo = 0usize;
+        let mut hi = ENTITIES.len();
+        let mut k = 0usize;
+        let mut best = None;
+        loop {
+            let b = match self.peek(k) {
+                Some(c) if c.is_ascii() => c as u8,
+                _ => break,
+            };
+            // all names in lo..hi share their first k bytes with the input; an entry of length
+            // exactly k (if any) sorts first
+            let sub = &ENTITIES[lo..hi];
+            let first = sub.partition_point(|(n, _)| n.len() <= k || n.as_bytes()[k] < b);
+            let last = sub.partition_point(|(n, _)| n.len() <= k || n.as_bytes()[k] <= b);
+            if first == last {
+                break;
+            }
+            hi = lo + last;
+            lo += first;
+            k += 1;
+            if ENTITIES[lo].0.len() == k {
+                best = Some((k, ENTITIES[lo].1));
+            }
+        }
+        best
+    }
+
+    fn named_character_reference_state(&mut self) {
+        match self.longest_named_reference() {
+            Some((len, replacement)) => {
+                // "Consume the maximum number of characters possible ... Append each character
+                // to the temporary buffer when it's consumed."
+                for _ in 0..len {
+                    if let Some(c) = self.consume_raw() {
+                        self.temporary_buffer.push(c);
+                    }
+                }
+                let last_is_semicolon = self.current == Some(';');
+                let next_blocks = matches!(self.peek(0), Some(c) if c == '=' || c.is_ascii_alphanumeric());
+                if self.consumed_as_part_of_an_attribute() && !last_is_semicolon && next_blocks {
+                    // historical reasons: left as literal text
+                    self.note("match-attribute-exception");
+                    self.flush_code_points_consumed_as_a_character_reference();
+                } else {
+                    // (missing-semicolon-after-character-reference if !last_is_semicolon)
+                    self.note(if last_is_semicolon { "match-semicolon" } else { "match-no-semicolon" });
+                    self.temporary_buffer.clear();
+                    self.temporary_buffer.push_str(replacement);
+                    self.flush_code_points_consumed_as_a_character_reference();
+                }
+                let rs = self.return_state;
+                self.switch_to(rs);
+            },
+            None => {
+                self.note("no-match");
+                self.flush_code_points_consumed_as_a_character_reference();
+                self.switch_to(State::AmbiguousAmpersand);
+            },
+        }
+    }
+
+    fn ambiguous_ampersand_state(&mut self) {
+        match self.consume() {
+            Some(c) if c.is_ascii_alphanumeric() => {
+                if self.consumed_as_part_of_an_attribute() {
+                    self.append_to_attribute_value(c);
+                } else {
+                    self.emit_char(c);
+                }
+            },
+            // ';' is an unknown-named-character-reference parse error; both reconsume
+            _ => {
+                let rs = self.return_state;
+                self.reconsume_in(rs);
+            },
+        }
+    }
+
+    fn numeric_character_reference_state(&mut self) {
+        self.character_reference_code = 0;
+        match self.consume_numeric() {
+            Some(c @ ('x' | 'X')) => {
+                self.temporary_buffer.push(c);
+                self.switch_to(State::HexadecimalCharacterReferenceStart);
+            },
+            _ => self.reconsume_in(State::DecimalCharacterReferenceStart),
+        }
+    }
+
+    fn hexadecimal_character_reference_start_state(&mut self) {
+        match self.consume_numeric() {
+            Some(c) if c.is_ascii_hexdigit() => self.reconsume_in(State::HexadecimalCharacterReference),
+            _ => {
+                // absence-of-digits-in-numeric-character-reference
+                self.flush_code_points_consumed_as_a_character_reference();
+                let rs = self.return_state;
+                self.reconsume_in(rs);
+            },
+        }
+    }
+
+    fn decimal_character_reference_start_state(&mut self) {
+        match self.consume_numeric() {
+            Some(c) if c.is_ascii_digit() => self.reconsume_in(State::DecimalCharacterReference),
+            _ => {
+                // absence-of-digits-in-numeric-character-reference
+                self.flush_code_points_consumed_as_a_character_reference();
+                let rs = self.return_state;
+                self.reconsume_in(rs);
+            },
+        }
+    }
+
+    /// "Multiply the character reference code by `base`, add `digit`" without overflowing: any
+    /// value above 0x10FFFF is equivalent for the end state, so saturation is exact.
+    fn accumulate(&mut self, base: u32, digit: u32) {
+        self.character_reference_code = self.character_reference_code.saturating_mul(base).saturating_add(digit);
+    }
+
+    fn hexadecimal_character_reference_state(&mut self) {
+        match self.consume_numeric() {
+            Some(c) if c.is_ascii_hexdigit() => {
+                let d = c.to_digit(16).unwrap_or(0);
+                self.accumulate(16, d);
+            },
+            Some(';') => self.switch_to(State::NumericCharacterReferenceEnd),
+            // missing-semicolon-after-character-reference
+            _ => self.reconsume_in(State::NumericCharacterReferenceEnd),
+        }
+    }
+
+    fn decimal_character_reference_state(&mut self) {
+        match self.consume_numeric() {
+            Some(c) if c.is_ascii_digit() => {
+                let d = c.to_digit(10).unwrap_or(0);
+                self.accumulate(10, d);
+            },
+            Some(';') => self.switch_to(State::NumericCharacterReferenceEnd),
+            // missing-semicolon-after-character-reference
+            _ => self.reconsume_in(State::NumericCharacterReferenceEnd),
+        }
+    }
+
+    fn numeric_character_reference_end_state(&mut self) {
+        let code = self.character_reference_code;
+        let resolved: char = if code == 0 {
+            // null-character-reference
+            self.note("nul");
+            REPLACEMENT
+        } else if code > 0x10FFFF {
+            // character-reference-outside-unicode-range
+            self.note("out-of-range");
+            REPLACEMENT
+        } else if (0xD800..=0xDFFF).contains(&code) {
+            // surrogate-character-reference
+            self.note("surrogate");
+            REPLACEMENT
+        } else if (0xFDD0..=0xFDEF).contains(&code) || (code & 0xFFFE) == 0xFFFE {
+            // noncharacter-character-reference: parse error only
+            self.note("noncharacter");
+            char::from_u32(code).unwrap_or(REPLACEMENT)
+        // SPEC-UNSURE: exact wording/order of the noncharacter vs. control checks; both are parse
+        // errors only, so the order affects nothing but the coverage label. The definition of
+        // "control" used here is C0 (U+0000..=U+001F) plus U+007F..=U+009F.
+        } else if let Some(mapped) = c1_replacement(code) {
+            // control-character-reference, with a replacement from the table
+            self.note("c1-mapped");
+            mapped
+        } else if code == 0x0D || (is_control(code) && !is_ascii_whitespace_code(code)) {
+            // control-character-reference: parse error only
+            self.note("control");
+            char::from_u32(code).unwrap_or(REPLACEMENT)
+        } else {
+            self.note("other");
+            char::from_u32(code).unwrap_or(REPLACEMENT)
+        };
+        self.temporary_buffer.clear();
+        self.temporary_buffer.push(resolved);
+        self.flush_code_points_consumed_as_a_character_reference();
+        let rs = self.return_state;
+        self.switch_to(rs);
+    }
+}
+
+/// A control is a C0 control (U+0000..=U+001F) or a code point in U+007F..=U+009F.
+fn is_control(code: u32) -> bool {
+    code <= 0x1F || (0x7F..=0x9F).contains(&code)
+}
+
+/// ASCII whitespace: TAB, LF, FF, CR, SPACE.
+fn is_ascii_whitespace_code(code: u32) -> bool {
+    matches!(code, 0x09 | 0x0A | 0x0C | 0x0D | 0x20)
+}
+
+/// The replacement table of the numeric character reference end state (Windows-1252 C1 range).
+fn c1_replacement(code: u32) -> Option<char> {
+    let r = match code {
+        0x80 => 0x20AC,
+        0x82 => 0x201A,
+        0x83 => 0x0192,
+        0x84 => 0x201E,
+        0x85 => 0x2026,
+        0x86 => 0x2020,
+        0x87 => 0x2021,
+        0x88 => 0x02C6,
+        0x89 => 0x2030,
+        0x8A => 0x0160,
+        0x8B => 0x2039,
+        0x8C => 0x0152,
+        0x8E => 0x017D,
+        0x91 => 0x2018,
+        0x92 => 0x2019,
+        0x93 => 0x201C,
+        0x94 => 0x201D,
+        0x95 => 0x2022,
+        0x96 => 0x2013,
+        0x97 => 0x2014,
+        0x98 => 0x02DC,
+        0x99 => 0x2122,
+        0x9A => 0x0161,
+        0x9B => 0x203A,
+        0x9C => 0x0153,
+        0x9E => 0x017E,
+        0x9F => 0x0178,
+        _ => return None,
+    };
+    char::from_u32(r)
+}
+
+// ---------------------------------------------------------------------------------------------
+// known-answer vectors (html5lib-tokenizer-test style JSON) and self checks
+
+use crate::tokrec::{Policy, PolicyState};
+
+/// Raw (uncoalesced) collector applying a `Policy`.
+struct CollectSink {
+    policy: Policy,
+    pstate: PolicyState,
+    raw: Vec<(RTok, u64)>,
+}
+
+impl CollectSink {
+    fn new(policy: Policy) -> CollectSink {
+        CollectSink { policy, pstate: PolicyState::default(), raw: Vec::new() }
+    }
+}
+
+impl RefSink for CollectSink {
+    fn token(&mut self, tok: RTok, line: u64) -> Answer {
+        let ans = match &tok {
+            RTok::Start { name, self_closing, .. } => self.policy.on_tag(&mut self.pstate, true, name, *self_closing),
+            RTok::End { name, self_closing, .. } => self.policy.on_tag(&mut self.pstate, false, name, *self_closing),
+            _ => Answer::Continue,
+        };
+        self.raw.push((tok, line));
+        ans
+    }
+    fn foreign(&mut self) -> bool {
+        self.policy.foreign(&self.pstate)
+    }
+}
+
+/// Coalesce adjacent character tokens (a `Null` becomes a U+0000 inside the run, as in the
+/// html5lib expectations), drop the final EOF. The line of a run is that of its last piece.
+/// Returns (tokens, line of the EOF token).
+fn coalesce_for_vectors(raw: &[(RTok, u64)]) -> Result<(Vec<(RTok, u64)>, u64), String> {
+    let mut out: Vec<(RTok, u64)> = Vec::new();
+    let mut eof_line = None;
+    for (i, (t, l)) in raw.iter().enumerate() {
+        if eof_line.is_some() {
+            return Err(format!("token after EOF at index {i}"));
+        }
+        let piece = match t {
+            RTok::Chars(c) => Some(c.clone()),
+            RTok::Null => Some("\0".to_string()),
+            RTok::Eof => {
+                eof_line = Some(*l);
+                continue;
+            },
+            RTok::Error(_) => return Err("model emitted an Error token".into()),
+            _ => None,
+        };
+        match piece {
+            Some(p) => {
+                if let Some((RTok::Chars(prev), pl)) = out.last_mut() {
+                    prev.push_str(&p);
+                    *pl = *l;
+                } else {
+                    out.push((RTok::Chars(p), *l));
+                }
+            },
+            None => out.push((t.clone(), *l)),
+        }
+    }
+    match eof_line {
+        Some(l) => Ok((out, l)),
+        None => Err("no EOF token".into()),
+    }
+}
+
+fn parse_initial_state(s: &str) -> Option<StartState> {
+    Some(match s {
+        "Data state" => StartState::Data,
+        "RCDATA state" => StartState::Rcdata,
+        "RAWTEXT state" => StartState::Rawtext,
+        "Script data state" => StartState::ScriptData,
+        "Script data escaped state" => StartState::ScriptDataEscaped,
+        "Script data double escaped state" => StartState::ScriptDataDoubleEscaped,
+        "PLAINTEXT state" => StartState::Plaintext,
+        _ => return None,
+    })
+}
+
+/// Expected token as written in the vectors file. `None` fields are not compared.
+#[derive(Debug)]
+enum Expect {
+    Exact(RTok),
+    Tag {
+        is_end: bool,
+        name: String,
+        /// attribute list; `ordered` = given as an array of pairs (source order is compared)
+        attrs: Option<(Vec<(String, String)>, bool)>,
+        self_closing: Option<bool>,
+        dup: Option<bool>,
+    },
+}
+
+fn opt_string(v: &serde_json::Value) -> Result<Option<String>, String> {
+    match v {
+        serde_json::Value::Null => Ok(None),
+        serde_json::Value::String(s) => Ok(Some(s.clone())),
+        other => Err(format!("expected string or null, got {other}")),
+    }
+}
+
+fn parse_attrs(v: &serde_json::Value) -> Result<(Vec<(String, String)>, bool), String> {
+    match v {
+        serde_json::Value::Object(m) => {
+            let mut out = Vec::new();
+            for (k, val) in m {
+                out.push((k.clone(), val.as_str().ok_or("attribute value must be a string")?.to_string()));
+            }
+            out.sort();
+            Ok((out, false))
+        },
+        serde_json::Value::Array(a) => {
+            let mut out = Vec::new();
+            for pair in a {
+                let p = pair.as_array().filter(|p| p.len() == 2).ok_or("attribute pair must be [name, value]")?;
+                out.push((
+                    p[0].as_str().ok_or("attribute name must be a string")?.to_string(),
+                    p[1].as_str().ok_or("attribute value must be a string")?.to_string(),
+                ));
+            }
+            Ok((out, true))
+        },
+        other => Err(format!("bad attribute list {other}")),
+    }
+}
+
+fn parse_expected(v: &serde_json::Value) -> Result<Expect, String> {
+    let a = v.as_array().ok_or("expected token must be an array")?;
+    let kind = a.first().and_then(|k| k.as_str()).ok_or("expected token kind")?;
+    let s = |i: usize| -> Result<String, String> {
+        a.get(i).and_then(|x| x.as_str()).map(|x| x.to_string()).ok_or(format!("{kind}: field {i} must be a string"))
+    };
+    match kind {
+        "Character" => Ok(Expect::Exact(RTok::Chars(s(1)?))),
+        "Comment" => Ok(Expect::Exact(RTok::Comment(s(1)?))),
+        "DOCTYPE" => {
+            if a.len() != 5 {
+                return Err("DOCTYPE needs [kind, name, public, system, correctness]".into());
+            }
+            Ok(Expect::Exact(RTok::Doctype {
+                name: opt_string(&a[1])?,
+                public_id: opt_string(&a[2])?,
+                system_id: opt_string(&a[3])?,
+                force_quirks: !a[4].as_bool().ok_or("DOCTYPE correctness must be a bool")?,
+            }))
+        },
+        "StartTag" | "EndTag" => {
+            let is_end = kind == "EndTag";
+            let attrs = match a.get(2) {
+                Some(v) => Some(parse_attrs(v)?),
+                // html5lib convention: ["EndTag", name] says nothing about attributes
+                None if is_end => None,
+                None => Some((Vec::new(), false)),
+            };
+            let self_closing = match a.get(3) {
+                Some(v) => Some(v.as_bool().ok_or("self-closing must be a bool")?),
+                None if is_end => None,
+                None => Some(false),
+            };
+            let dup = match a.get(4) {
+                Some(v) => Some(v.as_bool().ok_or("dup must be a bool")?),
+                None => None,
+            };
+            Ok(Expect::Tag { is_end, name: s(1)?, attrs, self_closing, dup })
+        },
+        other => Err(format!("unknown expected token kind {other:?}")),
+    }
+}
+
+fn matches_expected(e: &Expect, got: &RTok) -> bool {
+    match e {
+        Expect::Exact(t) => t == got,
+        Expect::Tag { is_end, name, attrs, self_closing, dup } => {
+            let (g_end, g_name, g_attrs, g_sc, g_dup) = match got {
+                RTok::Start { name, attrs, self_closing, dup } => (false, name, attrs, *self_closing, *dup),
+                RTok::End { name, attrs, self_closing, dup } => (true, name, attrs, *self_closing, *dup),
+                _ => return false,
+            };
+            if g_end != *is_end || g_name != name {
+                return false;
+            }
+            if let Some((want, ordered)) = attrs {
+                let mut g = g_attrs.clone();
+                if !*ordered {
+                    g.sort();
+                }
+                if &g != want {
+                    return false;
+                }
+            }
+            self_closing.map_or(true, |s| s == g_sc) && dup.map_or(true, |d| d == g_dup)
+        },
+    }
+}
+
+/// Check the model against one parsed vectors document. Returns the number of
+/// (case, initial state) runs checked.
+///
+/// Format (html5lib tokenizer tests plus extensions): `{"tests": [{"description", "input",
+/// "output", "initialStates"?, "lastStartTag"?, "foreign"? (bool, default false),
+/// "policy"? ("treebuilder"; default: the sink always answers Continue), "discardBom"?
+/// (bool, default false), "lines"? (expected line of every output token, then of EOF)}]}`.
+/// Tokens: `["Character", s]`, `["Comment", s]`, `["DOCTYPE", name, public, system,
+/// correctness]` (correctness = !force_quirks), `["StartTag", name, attrs, selfClosing?, dup?]`,
+/// `["EndTag", name, attrs?, selfClosing?, dup?]`; attrs is an object (unordered) or an array of
+/// `[name, value]` pairs (source order compared).
+pub fn check_vectors_value(doc: &serde_json::Value) -> Result<usize, String> {
+    let tests = doc.get("tests").and_then(|t| t.as_array()).ok_or("no \"tests\" array")?;
+    let mut checked = 0usize;
+    for (idx, t) in tests.iter().enumerate() {
+        let desc = t.get("description").and_then(|d| d.as_str()).unwrap_or("?").to_string();
+        let ctx = |m: String| format!("case #{idx} {desc:?}: {m}");
+        let input = t.get("input").and_then(|d| d.as_str()).ok_or_else(|| ctx("no input".into()))?;
+        let output = t.get("output").and_then(|d| d.as_array()).ok_or_else(|| ctx("no output".into()))?;
+        let mut expected = Vec::new();
+        for o in output {
+            expected.push(parse_expected(o).map_err(&ctx)?);
+        }
+        let states: Vec<StartState> = match t.get("initialStates").and_then(|s| s.as_array()) {
+            None => vec![StartState::Data],
+            Some(list) => {
+                let mut v = Vec::new();
+                for s in list {
+                    let name = s.as_str().unwrap_or("");
+                    v.push(parse_initial_state(name).ok_or_else(|| ctx(format!("unknown initial state {name:?}")))?);
+                }
+                v
+            },
+        };
+        let last_start_tag = t.get("lastStartTag").and_then(|s| s.as_str()).map(|s| s.to_string());
+        let foreign = t.get("foreign").and_then(|b| b.as_bool()).unwrap_or(false);
+        let discard_bom = t.get("discardBom").and_then(|b| b.as_bool()).unwrap_or(false);
+        let policy = match t.get("policy").and_then(|p| p.as_str()) {
+            None => Policy::Const { start: Answer::Continue, end: Answer::Continue, foreign },
+            Some("treebuilder") => Policy::TreeBuilderLike,
+            Some(other) => return Err(ctx(format!("unknown policy {other:?}"))),
+        };
+        let lines: Option<Vec<u64>> = t
+            .get("lines")
+            .and_then(|l| l.as_array())
+            .map(|l| l.iter().map(|x| x.as_u64().unwrap_or(0)).collect());
+        for st in states {
+            let opts = RefTokOpts { start: st, last_start_tag: last_start_tag.clone(), discard_bom };
+            let mut sink = CollectSink::new(policy.clone());
+            run_reftok(input, &opts, &mut sink);
+            let (got, eof_line) = coalesce_for_vectors(&sink.raw).map_err(|m| ctx(format!("[{st:?}] {m}")))?;
+            let show = || got.iter().map(|(t, _)| t.short()).collect::<Vec<_>>().join(" ");
+            if got.len() != expected.len() {
+                return Err(ctx(format!("[{st:?}] expected {} tokens {:?}, got {}: {}", expected.len(), expected, got.len(), show())));
+            }
+            for (i, (e, (g, _))) in expected.iter().zip(got.iter()).enumerate() {
+                if !matches_expected(e, g) {
+                    return Err(ctx(format!("[{st:?}] token {i}: expected {e:?}, got {} (all: {})", g.short(), show())));
+                }
+            }
+            if let Some(want) = &lines {
+                let mut have: Vec<u64> = got.iter().map(|(_, l)| *l).collect();
+                have.push(eof_line);
+                if &have != want {
+                    return Err(ctx(format!("[{st:?}] lines: expected {want:?}, got {have:?}")));
+                }
+            }
+            checked += 1;
+        }
+    }
+    Ok(checked)
+}
+
+/// Load a vectors file (see `check_vectors_value` for the format) and check the model against
+/// every case. Returns the number of (case, initial state) runs checked.
+pub fn check_vectors(path: &str) -> Result<usize, String> {
+    let text = std::fs::read_to_string(path).map_err(|e| format!("{path}: {e}"))?;
+    let doc: serde_json::Value = serde_json::from_str(&text).map_err(|e| format!("{path}: {e}"))?;
+    check_vectors_value(&doc)
+}
+
+/// Compact embedded subset of the vectors (nothing is read from disk).
+const SELF_TEST_VECTORS: &str = r##"{"tests":[
+{"description":"text and tags","input":"a<B C=d e='f' g=\"h\" i>j</B>","output":[["Character","a"],["StartTag","b",[["c","d"],["e","f"],["g","h"],["i",""]],false,false],["Character","j"],["EndTag","b",{},false,false]]},
+{"description":"duplicate attribute","input":"<a x=1 X=2 y>","output":[["StartTag","a",[["x","1"],["y",""]],false,true]]},
+{"description":"self closing","input":"<br/>","output":[["StartTag","br",{},true]]},
+{"description":"comment","input":"<!--a--b--!>c","output":[["Comment","a--b"],["Character","c"]]},
+{"description":"nested comment open","input":"<!--<!---->","output":[["Comment","<!--"]]},
+{"description":"doctype","input":"<!DOCTYPE html PUBLIC \"p\" 's'>","output":[["DOCTYPE","html","p","s",true]]},
+{"description":"doctype eof","input":"<!DOCTYPE","output":[["DOCTYPE",null,null,null,false]]},
+{"description":"rcdata","initialStates":["RCDATA state"],"lastStartTag":"title","input":"a&lt;</b></TITLE >x","output":[["Character","a<</b>"],["EndTag","title"],["Character","x"]]},
+{"description":"script double escape","initialStates":["Script data state"],"lastStartTag":"script","input":"<!--<script></script>--></script>","output":[["Character","<!--<script></script>-->"],["EndTag","script"]]},
+{"description":"cdata foreign","foreign":true,"input":"<![CDATA[a]]]>b","output":[["Character","a]b"]]},
+{"description":"cdata html","input":"<![CDATA[a]]>b","output":[["Comment","[CDATA[a]]"],["Character","b"]]},
+{"description":"crlf","input":"a\r\nb\rc\n\rd","output":[["Character","a\nb\nc\n\nd"]],"lines":[5,5]},
+{"description":"named refs","input":"&notit;&notin;&amp&ampx&foo;","output":[["Character","¬it;∉&&x&foo;"]]},
+{"description":"attr refs","input":"<a b='&amp=&ampx&amp;&not!'>","output":[["StartTag","a",{"b":"&amp=&ampx&¬!"}]]},
+{"description":"numeric refs","input":"&#0;&#x80;&#xD800;&#x110000;&#65&#x;&#;","output":[["Character","�€��A&#x;&#;"]]},
+{"description":"nul","input":"\u0000<a\u0000 b\u0000=\u0000>","output":[["Character","\u0000"],["StartTag","a�",{"b�":"�"}]]}
+]}"##;
+
+/// Check the model against the embedded subset. Returns the number of runs checked.
+pub fn self_test() -> Result<usize, String> {
+    let doc: serde_json::Value = serde_json::from_str(SELF_TEST_VECTORS).map_err(|e| format!("embedded vectors: {e}"))?;
+    check_vectors_value(&doc)
+}
+
+/// Structural sanity of the model on `n` random inputs x every start state: exactly one EOF and
+/// it is last, one code point per character token, no NUL inside a character token, no Error
+/// token, lines never decrease, EOF line == 1 + number of (normalised) line breaks. Returns
+/// the number of runs.
+pub fn sanity(n: usize, seed: u64) -> Result<usize, String> {
+    use crate::gen::{tok_soup, START_STATES};
+    let mut rng = crate::prng::Rng::new(seed);
+    let mut runs = 0usize;
+    for i in 0..n {
+        let input = tok_soup(&mut rng, 12);
+        for st in START_STATES {
+            let last = *rng.pick(&[None, Some("script"), Some("title"), Some("style"), Some("x")]);
+            let discard_bom = rng.chance(1, 2);
+            let policy = match rng.below(3) {
+                0 => Policy::TreeBuilderLike,
+                1 => Policy::Const {
+                    start: *rng.pick(&crate::tokrec::ALL_ANSWERS),
+                    end: *rng.pick(&crate::tokrec::ALL_ANSWERS),
+                    foreign: rng.chance(1, 2),
+                },
+                _ => Policy::Hashed { salt: rng.next_u64(), foreign_salt: rng.next_u64() },
+            };
+            let opts = RefTokOpts { start: st, last_start_tag: last.map(|s| s.to_string()), discard_bom };
+            let mut sink = CollectSink::new(policy.clone());
+            run_reftok(&input, &opts, &mut sink);
+            let ctx = |m: String| format!("sanity #{i} input {input:?} opts {opts:?} policy {policy:?}: {m}");
+            let body = if discard_bom { input.strip_prefix('\u{FEFF}').unwrap_or(&input) } else { &input };
+            let breaks = body.replace("\r\n", "\n").chars().filter(|c| *c == '\n' || *c == '\r').count() as u64;
+            let raw = &sink.raw;
+            match raw.last() {
+                Some((RTok::Eof, l)) if *l == 1 + breaks => {},
+                other => return Err(ctx(format!("last token {other:?}, expected EOF at line {}", 1 + breaks))),
+            }
+            if raw.iter().filter(|(t, _)| *t == RTok::Eof).count() != 1 {
+                return Err(ctx("more than one EOF".into()));
+            }
+            let mut prev = 1u64;
+            for (t, l) in raw {
+                if *l < prev {
+                    return Err(ctx(format!("line decreased at {}", t.short())));
+                }
+                prev = *l;
+                match t {
+                    RTok::Chars(c) if c.chars().count() != 1 || c.contains('\0') => {
+                        return Err(ctx(format!("bad character token {c:?}")));
+                    },
+                    RTok::Error(_) => return Err(ctx("Error token".into())),
+                    _ => {},
+                }
+            }
+            runs += 1;
+        }
+    }
+    Ok(runs)
+}
+
+#[cfg(test)]
+mod tests {
+    use super::*;
+
+    #[test]
+    fn entity_table_is_sorted_and_complete() {
+        assert_eq!(ENTITIES.len(), 2231);
+        assert!(ENTITIES.windows(2).all(|w| w[0].0 < w[1].0));
+    }
+
+    #[test]
+    fn embedded_vectors_pass() {
+        let n = self_test().unwrap_or_else(|e| panic!("{e}"));
+        assert!(n >= 16);
+    }
+
+    #[test]
+    fn vector_file_passes() {
+        let path = std::env::var("REFTOK_VECTORS")
+            .unwrap_or_else(|_| concat!(env!("CARGO_MANIFEST_DIR"), "/../vectors/tokenizer_vectors.json").to_string());
+        let n = check_vectors(&path).unwrap_or_else(|e| panic!("{e}"));
+        assert!(n >= 150, "only {n} runs");
+        eprintln!("vector runs checked: {n}");
+    }
+
+    #[test]
+    fn every_state_is_reachable() {
+        use crate::gen::{state_prefixes, CLASS_CHARS, SUFFIXES};
+        let mut cov = Coverage::new();
+        for (start, last, prefix, _) in state_prefixes() {
+            for c in CLASS_CHARS {
+                for suffix in SUFFIXES {
+                    for foreign in [false, true] {
+                        let input = format!("{prefix}{c}{suffix}");
+                        let opts = RefTokOpts { start, last_start_tag: last.map(|s| s.to_string()), discard_bom: false };
+                        let mut sink = CollectSink::new(Policy::Const { start: Answer::Continue, end: Answer::Continue, foreign });
+                        cov.extend(run_reftok(&input, &opts, &mut sink));
+                    }
+                }
+            }
+        }
+        let states: BTreeSet<&str> = cov.iter().map(|(s, _)| *s).collect();
+        assert_eq!(states.len(), 80, "states reached: {states:?}");
+        eprintln!("(state, class) pairs covered: {}", cov.len());
+    }
+
+    #[test]
+    fn random_inputs_are_structurally_sane() {
+        let n = sanity(10_000, 0x5EED).unwrap_or_else(|e| panic!("{e}"));
+        assert_eq!(n, 70_000);
+    }
 }
